@@ -281,69 +281,79 @@ theorem evalInOrder_eq_evalSeq (ts : List (Name × Comp)) (D : Name → Option F
 
 /-! ### `classify`: static / dynamic split as filters by the final parameter-name set -/
 
-/-- `classify` when the order may also contain names of (initial-assignment) variables: those are static and
-    do not enter the parameter-name set -/
-theorem classify_specV (c : Content) (hs : c.surs = []) : ∀ (o st0 dy0 apn0 : List Name),
+/-- `classify` when the order may contain names of (initial-assignment) variables and parameters: both are
+    static; the parameters are in the parameter-name set from the start, the variables never enter it -/
+theorem classify_specP (c : Content) (hs : c.surs = []) : ∀ (o st0 dy0 apn0 : List Name),
     o.Nodup →
-    (∀ k ∈ o, k ∉ apn0 ∧ k ∉ omKeys c.pars) →
-    (∀ k ∈ o, k ∈ omKeys c.vars → k ∉ omKeys c.rxns) →
-    (∀ k ∈ o, k ∈ omKeys c.rxns ∨ k ∈ omKeys c.vars ∨ ∃ d, c.derived.lookup k = some d) →
+    (∀ a ∈ omKeys c.pars, a ∈ apn0) →
+    (∀ k ∈ o, k ∈ apn0 → k ∈ omKeys c.pars) →
+    (∀ k ∈ o, k ∈ omKeys c.vars ∨ k ∈ omKeys c.pars → k ∉ omKeys c.rxns) →
+    (∀ k ∈ o, k ∈ omKeys c.vars → k ∉ omKeys c.pars) →
+    (∀ k ∈ o, k ∈ omKeys c.rxns ∨ k ∈ omKeys c.vars ∨ k ∈ omKeys c.pars ∨ ∃ d, c.derived.lookup k = some d) →
     ∃ apn', classify c o st0 dy0 apn0
         = (st0.reverse ++ o.filter (fun k => (omKeys c.vars).contains k || apn'.contains k),
            dy0.reverse ++ o.filter (fun k => !((omKeys c.vars).contains k || apn'.contains k)), apn')
       ∧ (∀ a, a ∈ apn0 → a ∈ apn')
-      ∧ (∀ a, a ∈ apn' → a ∈ apn0 ∨ (a ∈ o ∧ a ∉ omKeys c.vars))
-      ∧ (∀ k ∈ o, k ∈ apn' → k ∉ omKeys c.rxns ∧ k ∉ omKeys c.vars ∧
-            ∃ d, c.derived.lookup k = some d ∧ ∀ a ∈ d.args, a ∈ apn') := by
+      ∧ (∀ a, a ∈ apn' → a ∈ apn0 ∨ (a ∈ o ∧ a ∉ omKeys c.vars ∧ a ∉ omKeys c.pars))
+      ∧ (∀ k ∈ o, k ∈ apn' → k ∈ omKeys c.pars ∨ (k ∉ omKeys c.rxns ∧ k ∉ omKeys c.vars ∧
+            ∃ d, c.derived.lookup k = some d ∧ ∀ a ∈ d.args, a ∈ apn')) := by
   intro o; induction o with
   | nil =>
-    intro st0 dy0 apn0 _ _ _ _
+    intro st0 dy0 apn0 _ _ _ _ _ _
     exact ⟨apn0, by simp [classify], fun a h => h, fun a h => Or.inl h, fun k hk => by cases hk⟩
   | cons k ks ih =>
-    intro st0 dy0 apn0 hnd hdis hvr hkind
+    intro st0 dy0 apn0 hnd hsub hdis hvr hvp hkind
     simp only [List.nodup_cons] at hnd
-    have hdis' : ∀ k' ∈ ks, k' ∉ apn0 ∧ k' ∉ omKeys c.pars :=
+    have hdis' : ∀ k' ∈ ks, k' ∈ apn0 → k' ∈ omKeys c.pars :=
       fun k' hk' => hdis k' (List.mem_cons_of_mem _ hk')
-    have hvr' : ∀ k' ∈ ks, k' ∈ omKeys c.vars → k' ∉ omKeys c.rxns :=
+    have hvr' : ∀ k' ∈ ks, k' ∈ omKeys c.vars ∨ k' ∈ omKeys c.pars → k' ∉ omKeys c.rxns :=
       fun k' hk' => hvr k' (List.mem_cons_of_mem _ hk')
-    have hkind' : ∀ k' ∈ ks, k' ∈ omKeys c.rxns ∨ k' ∈ omKeys c.vars ∨ ∃ d, c.derived.lookup k' = some d :=
+    have hvp' : ∀ k' ∈ ks, k' ∈ omKeys c.vars → k' ∉ omKeys c.pars :=
+      fun k' hk' => hvp k' (List.mem_cons_of_mem _ hk')
+    have hkind' : ∀ k' ∈ ks, k' ∈ omKeys c.rxns ∨ k' ∈ omKeys c.vars ∨ k' ∈ omKeys c.pars
+        ∨ ∃ d, c.derived.lookup k' = some d :=
       fun k' hk' => hkind k' (List.mem_cons_of_mem _ hk')
-    obtain ⟨hk0, hkp⟩ := hdis k List.mem_cons_self
     have hsur : k ∉ omKeys c.surs := by simp [hs, omKeys]
-    -- outcomes that leave apn unchanged: dynamic (flag false) or static variable (flag true)
-    have same_apn : ∀ (isVar : Bool), (isVar = true ↔ k ∈ omKeys c.vars) →
+    -- outcomes that leave the parameter-name set unchanged
+    have same_apn : ∀ (isStatic : Bool), (isStatic = true → k ∈ omKeys c.vars ∨ k ∈ omKeys c.pars) →
+        (isStatic = false → k ∉ omKeys c.vars ∧ k ∉ omKeys c.pars) →
         classify c (k :: ks) st0 dy0 apn0 =
-          (if isVar then classify c ks (k :: st0) dy0 apn0 else classify c ks st0 (k :: dy0) apn0) →
+          (if isStatic then classify c ks (k :: st0) dy0 apn0 else classify c ks st0 (k :: dy0) apn0) →
         ∃ apn', classify c (k :: ks) st0 dy0 apn0
           = (st0.reverse ++ (k :: ks).filter (fun k => (omKeys c.vars).contains k || apn'.contains k),
              dy0.reverse ++ (k :: ks).filter (fun k => !((omKeys c.vars).contains k || apn'.contains k)), apn')
         ∧ (∀ a, a ∈ apn0 → a ∈ apn')
-        ∧ (∀ a, a ∈ apn' → a ∈ apn0 ∨ (a ∈ k :: ks ∧ a ∉ omKeys c.vars))
-        ∧ (∀ k' ∈ k :: ks, k' ∈ apn' → k' ∉ omKeys c.rxns ∧ k' ∉ omKeys c.vars ∧
-              ∃ d, c.derived.lookup k' = some d ∧ ∀ a ∈ d.args, a ∈ apn') := by
-      intro isVar hiv heq
-      cases isVar with
+        ∧ (∀ a, a ∈ apn' → a ∈ apn0 ∨ (a ∈ k :: ks ∧ a ∉ omKeys c.vars ∧ a ∉ omKeys c.pars))
+        ∧ (∀ k' ∈ k :: ks, k' ∈ apn' → k' ∈ omKeys c.pars ∨ (k' ∉ omKeys c.rxns ∧ k' ∉ omKeys c.vars ∧
+              ∃ d, c.derived.lookup k' = some d ∧ ∀ a ∈ d.args, a ∈ apn')) := by
+      intro isStatic hst hdy heq
+      cases isStatic with
       | true =>
-        have hkv : k ∈ omKeys c.vars := hiv.mp rfl
         simp only [if_true] at heq
-        obtain ⟨apn', h1, h2, h3, h4⟩ := ih (k :: st0) dy0 apn0 hnd.2 hdis' hvr' hkind'
-        have hk' : k ∉ apn' := by
+        obtain ⟨apn', h1, h2, h3, h4⟩ := ih (k :: st0) dy0 apn0 hnd.2 hsub hdis' hvr' hvp' hkind'
+        have hk4 : k ∈ apn' → k ∈ omKeys c.pars := by
           intro hm; rcases h3 k hm with h | h
-          · exact hk0 h
-          · exact hnd.1 h.1
+          · exact hdis k List.mem_cons_self h
+          · exact absurd h.1 hnd.1
+        have hflag : ((omKeys c.vars).contains k || apn'.contains k) = true := by
+          rcases hst rfl with h | h
+          · simp [h]
+          · simp [h2 k (hsub k h)]
         refine ⟨apn', ?_, h2, fun a ha => (h3 a ha).imp id (fun h => ⟨List.mem_cons_of_mem _ h.1, h.2⟩), ?_⟩
-        · rw [heq, h1]; simp [List.filter_cons, hkv]
+        · rw [heq, h1]
+          simp only [List.filter_cons, hflag, if_true, Bool.not_true, Bool.false_eq_true, if_false,
+            List.reverse_cons, List.append_assoc, List.singleton_append]
         · intro k' hk'mem hk'apn
           cases List.mem_cons.mp hk'mem with
-          | inl h => subst h; exact absurd hk'apn hk'
+          | inl h => subst h; exact Or.inl (hk4 hk'apn)
           | inr h => exact h4 k' h hk'apn
       | false =>
-        have hkv : k ∉ omKeys c.vars := fun h => by have := hiv.mpr h; cases this
+        obtain ⟨hkv, hkp⟩ := hdy rfl
         simp only [Bool.false_eq_true, if_false] at heq
-        obtain ⟨apn', h1, h2, h3, h4⟩ := ih st0 (k :: dy0) apn0 hnd.2 hdis' hvr' hkind'
+        obtain ⟨apn', h1, h2, h3, h4⟩ := ih st0 (k :: dy0) apn0 hnd.2 hsub hdis' hvr' hvp' hkind'
         have hk' : k ∉ apn' := by
           intro hm; rcases h3 k hm with h | h
-          · exact hk0 h
+          · exact hkp (hdis k List.mem_cons_self h)
           · exact hnd.1 h.1
         refine ⟨apn', ?_, h2, fun a ha => (h3 a ha).imp id (fun h => ⟨List.mem_cons_of_mem _ h.1, h.2⟩), ?_⟩
         · rw [heq, h1]; simp [List.filter_cons, hkv, hk']
@@ -352,38 +362,100 @@ theorem classify_specV (c : Content) (hs : c.surs = []) : ∀ (o st0 dy0 apn0 : 
           | inl h => subst h; exact absurd hk'apn hk'
           | inr h => exact h4 k' h hk'apn
     by_cases hr : k ∈ omKeys c.rxns
-    · have hnv : k ∉ omKeys c.vars := fun hv => hvr k List.mem_cons_self hv hr
-      exact same_apn false ⟨fun h => (by cases h), fun h => absurd h hnv⟩ (by simp [classify, hr])
+    · have hnv : k ∉ omKeys c.vars := fun hv => hvr k List.mem_cons_self (Or.inl hv) hr
+      have hnp : k ∉ omKeys c.pars := fun hp => hvr k List.mem_cons_self (Or.inr hp) hr
+      exact same_apn false (fun h => by cases h) (fun _ => ⟨hnv, hnp⟩) (by simp [classify, hr])
     · by_cases hv : k ∈ omKeys c.vars
-      · exact same_apn true ⟨fun _ => hv, fun _ => rfl⟩ (by simp [classify, hr, hsur, hv])
-      · obtain ⟨d, hd⟩ := ((hkind k List.mem_cons_self).resolve_left hr).resolve_left hv
-        by_cases hall : ∀ a ∈ d.args, a ∈ apn0
-        · have heq : classify c (k :: ks) st0 dy0 apn0 = classify c ks (k :: st0) dy0 (k :: apn0) := by
-            simp [classify, hr, hsur, hv, hkp, hd]
-            intro x hx hnx; exact absurd (hall x hx) hnx
-          obtain ⟨apn', h1, h2, h3, h4⟩ := ih (k :: st0) dy0 (k :: apn0) hnd.2
-            (fun k' hk' => ⟨by
-                intro hm
+      · exact same_apn true (fun _ => Or.inl hv) (fun h => by cases h) (by simp [classify, hr, hsur, hv])
+      · by_cases hp : k ∈ omKeys c.pars
+        · exact same_apn true (fun _ => Or.inr hp) (fun h => by cases h) (by simp [classify, hr, hsur, hp])
+        · obtain ⟨d, hd⟩ := (((hkind k List.mem_cons_self).resolve_left hr).resolve_left hv).resolve_left hp
+          have hk0 : k ∉ apn0 := fun h => hp (hdis k List.mem_cons_self h)
+          by_cases hall : ∀ a ∈ d.args, a ∈ apn0
+          · have heq : classify c (k :: ks) st0 dy0 apn0 = classify c ks (k :: st0) dy0 (k :: apn0) := by
+              simp [classify, hr, hsur, hv, hp, hd]
+              intro x hx hnx; exact absurd (hall x hx) hnx
+            obtain ⟨apn', h1, h2, h3, h4⟩ := ih (k :: st0) dy0 (k :: apn0) hnd.2
+              (fun a ha => List.mem_cons_of_mem _ (hsub a ha))
+              (fun k' hk' hm => by
                 cases List.mem_cons.mp hm with
-                | inl h => exact hnd.1 (h ▸ hk')
-                | inr h => exact (hdis' k' hk').1 h, (hdis' k' hk').2⟩) hvr' hkind'
-          have hkin : k ∈ apn' := h2 k List.mem_cons_self
-          refine ⟨apn', ?_, fun a ha => h2 a (List.mem_cons_of_mem _ ha), ?_, ?_⟩
-          · rw [heq, h1]; simp [List.filter_cons, hkin]
-          · intro a ha
-            rcases h3 a ha with h | h
-            · cases List.mem_cons.mp h with
-              | inl h' => exact Or.inr ⟨h' ▸ List.mem_cons_self, h' ▸ hv⟩
-              | inr h' => exact Or.inl h'
-            · exact Or.inr ⟨List.mem_cons_of_mem _ h.1, h.2⟩
-          · intro k' hk'mem hk'apn
-            cases List.mem_cons.mp hk'mem with
-            | inl h =>
-              subst h
-              exact ⟨hr, hv, d, hd, fun a ha => h2 a (List.mem_cons_of_mem _ (hall a ha))⟩
-            | inr h => exact h4 k' h hk'apn
-        · exact same_apn false ⟨fun h => (by cases h), fun h => absurd h hv⟩
-            (by simp [classify, hr, hsur, hv, hkp, hd, hall])
+                | inl h => exact absurd (h ▸ hk') hnd.1
+                | inr h => exact hdis' k' hk' h) hvr' hvp' hkind'
+            have hkin : k ∈ apn' := h2 k List.mem_cons_self
+            refine ⟨apn', ?_, fun a ha => h2 a (List.mem_cons_of_mem _ ha), ?_, ?_⟩
+            · rw [heq, h1]; simp [List.filter_cons, hkin]
+            · intro a ha
+              rcases h3 a ha with h | h
+              · cases List.mem_cons.mp h with
+                | inl h' => exact Or.inr ⟨h' ▸ List.mem_cons_self, h' ▸ hv, h' ▸ hp⟩
+                | inr h' => exact Or.inl h'
+              · exact Or.inr ⟨List.mem_cons_of_mem _ h.1, h.2⟩
+            · intro k' hk'mem hk'apn
+              cases List.mem_cons.mp hk'mem with
+              | inl h =>
+                subst h
+                exact Or.inr ⟨hr, hv, d, hd, fun a ha => h2 a (List.mem_cons_of_mem _ (hall a ha))⟩
+              | inr h => exact h4 k' h hk'apn
+          · exact same_apn false (fun h => by cases h) (fun _ => ⟨hv, hp⟩)
+              (by simp [classify, hr, hsur, hv, hp, hd, hall])
+
+/-! ### lookups in a map filtered by key, union with fresh keys -/
+
+theorem lookup_filter_key {β} (p : Name → Bool) : ∀ (m : List (Name × β)) (a : Name),
+    (m.filter fun kv => p kv.1).lookup a = if p a then m.lookup a else none := by
+  intro m; induction m with
+  | nil => intro a; simp
+  | cons kv rest ih =>
+    intro a
+    obtain ⟨k, v⟩ := kv
+    simp only [List.filter_cons]
+    cases hp : p k with
+    | true =>
+      simp only [if_true, lookup_cons_eq, ih]
+      by_cases hak : a = k
+      · subst hak; simp [hp]
+      · simp [hak]
+    | false =>
+      simp only [Bool.false_eq_true, if_false, lookup_cons_eq, ih]
+      by_cases hak : a = k
+      · subst hak; simp [hp]
+      · simp [hak]
+
+theorem keys_filter_key {β} (p : Name → Bool) (m : List (Name × β)) :
+    (m.filter fun kv => p kv.1).map (·.1) = (m.map (·.1)).filter p := by
+  induction m with
+  | nil => rfl
+  | cons kv rest ih =>
+    obtain ⟨k, v⟩ := kv
+    simp only [List.filter_cons, List.map_cons]
+    cases hp : p k <;> simp [ih]
+
+theorem omInsert_fresh {β} : ∀ (acc : List (Name × β)) (k : Name) (v : β), k ∉ acc.map (·.1) →
+    omInsert acc k v = acc ++ [(k, v)] := by
+  intro acc; induction acc with
+  | nil => intro k v _; rfl
+  | cons kv' acc' iha =>
+    intro k v hk
+    obtain ⟨k', v'⟩ := kv'
+    simp only [List.map_cons, List.mem_cons, not_or] at hk
+    have : (k' == k) = false := by simpa using fun h => hk.1 h.symm
+    simp [omInsert, this, iha k v hk.2]
+
+theorem omUnion_fresh {β} : ∀ (l acc : List (Name × β)),
+    (l.map (·.1)).Nodup → (∀ a ∈ l.map (·.1), a ∉ acc.map (·.1)) → omUnion acc l = acc ++ l := by
+  intro l; induction l with
+  | nil => intro acc _ _; simp [omUnion]
+  | cons kv rest ih =>
+    intro acc hnd hdis
+    obtain ⟨k, v⟩ := kv
+    simp only [List.map_cons, List.nodup_cons] at hnd
+    have hk : k ∉ acc.map (·.1) := hdis k (by simp)
+    have : omUnion acc ((k, v) :: rest) = omUnion (omInsert acc k v) rest := by simp [omUnion]
+    rw [this, omInsert_fresh acc k v hk, ih (acc ++ [(k, v)]) hnd.2 (by
+      intro a ha
+      simp only [List.map_append, List.map_cons, List.map_nil, List.mem_append, List.mem_singleton, not_or]
+      exact ⟨hdis a (by simp [ha]), fun hak => hnd.1 (hak ▸ ha)⟩)]
+    simp
 
 /-! ### what a successful `createCache` consists of -/
 
